@@ -266,6 +266,13 @@ func (c *sconn) SetDeadline(t time.Time) error      { return nil }
 func (c *sconn) SetReadDeadline(t time.Time) error  { return nil }
 func (c *sconn) SetWriteDeadline(t time.Time) error { return nil }
 
+// timeoutErr is a net.Error with Timeout() and Temporary() true (what a write deadline produces)
+type timeoutErr struct{}
+
+func (timeoutErr) Error() string   { return "i/o timeout" }
+func (timeoutErr) Timeout() bool   { return true }
+func (timeoutErr) Temporary() bool { return true }
+
 var errReset = errors.New("connection reset by peer")
 var errPipe = errors.New("broken pipe")
 
